@@ -96,6 +96,20 @@ def scenarios(ctx):
     out.append({"kind": "shipped", "name": "hard_disk_dipoles/hard_disk_dipoles_cells", "end": ctx.pick(2.0, 8.0)})
     if not ctx.quick:
         out.append({"kind": "shipped", "name": "hard_disk_dipoles/hard_disk_dipoles", "end": 8.0})
+    # hard disks on a dyadic lattice: the moving disk meets two disks placed symmetrically about its line of motion at
+    # bit-identical times, leg after leg; the tied candidates belong to handlers of ONE pool, whose order of activation
+    # drifts away from their order of construction during the run (short runs: a disk resting in contact with two others is
+    # outside the hard-sphere handler's own precondition once it is pushed again)
+    for k in range(ctx.pick(2, 6)):
+        pos = [[0.1, 0.5], [0.6, 0.625], [0.6, 0.375], [1.1, 0.75], [1.1, 0.5], [1.1, 0.25],
+               [1.6, 0.875], [1.6, 0.625], [1.6, 0.375], [1.6, 0.125]]
+        if k % 2:
+            pos = [[(x + 0.25 * k) % 2.0, y] for x, y in pos]
+        out.append({"kind": "spheres", "family": "tie_lattice",
+                    "params": {"dim": 2, "lengths": [2.0, 1.0], "beta": 1.0, "n": 10, "potential": "hard_sphere", "radius": 0.1,
+                               "scheduler": "heap_scheduler" if k % 2 else "list_scheduler", "sampling_interval": 0.731,
+                               "chain_time": 0.7 * (1 + 0.013 * k), "speed": 1.0, "end": 1.05, "initial_direction": 0,
+                               "initial_active": [0, 2, 4, 7, 1, 9][k], "positions": pos, "eoc": "periodic"}})
     return out
 
 
